@@ -29,8 +29,20 @@ Definition is_contains_op (o : op) : bool :=
 Definition quote_meta (x : str) : str :=
   flat_map (fun c => if existsb (N.eqb c) [92; 46; 43; 42; 63; 40; 41; 124; 91; 93; 123; 125; 94; 36] then [92; c] else [c]) x.
 
+(** quoteOuterBlanks: blanks at the beginning and the end are written as [ ] (the parser trims the header line) *)
+Fixpoint drop_blanks (x : str) : str :=
+  match x with 32 :: r => drop_blanks r | _ => x end.
+Fixpoint repeat_str (n : nat) (t : str) : str :=
+  match n with O => [] | S n' => t ++ repeat_str n' t end.
+Definition quote_outer_blanks (x : str) : str :=
+  let lead := (length x - length (drop_blanks x))%nat in
+  let rest := drop_blanks x in
+  let inner := rev (drop_blanks (rev rest)) in
+  let trail := (length rest - length inner)%nat in
+  repeat_str lead [91; 32; 93] ++ inner ++ repeat_str trail [91; 32; 93].
+
 Definition leaf_value_text (l : leaf) : str :=
-  let v := if is_contains_op (lf_op l) then quote_meta (lf_str l) else lf_str l in
+  let v := if is_contains_op (lf_op l) then quote_outer_blanks (quote_meta (lf_str l)) else lf_str l in
   if lf_empty l then lf_tag l
   else match c_type (lf_col l) with
        | TCustVar => lf_tag l ++ [32] ++ v
